@@ -372,6 +372,12 @@ def n_workers() -> int:
     return max(1, min(16, os.cpu_count() or 1))
 
 
+def fold_width(workers: Optional[int], n_cases: int) -> int:
+    """Number of worker processes parallel_fold uses (case i -> worker i mod W)."""
+    W = workers or n_workers()
+    return max(1, min(W, n_cases or 1))
+
+
 def parallel_fold(
     cases: Sequence[Any],
     work: Callable[[int, Any], Any],
@@ -389,8 +395,7 @@ def parallel_fold(
     result)); accumulators come back to the parent and are merged in worker
     order, so the final value does not depend on scheduling.
     """
-    W = workers or n_workers()
-    W = max(1, min(W, len(cases) or 1))
+    W = fold_width(workers, len(cases))
     root = scratch_root()
     parts = []
     pids = []
